@@ -2169,6 +2169,9 @@ func (t *tScreen) disengage() {
 	t.wg.Wait()
 
 	// shutdown the screen and disable special modes (e.g. mouse and bracketed paste)
+	// (under the lock: other goroutines may still be calling the screen)
+	t.Lock()
+	defer t.Unlock()
 	ti := t.ti
 	t.cells.Resize(0, 0)
 	t.TPuts(ti.ShowCursor)
